@@ -558,12 +558,15 @@ class HyperscanTokenizer(Tokenizer):
             if start in byte_to_str_offset and end in byte_to_str_offset:
                 start = byte_to_str_offset[start]
                 end = byte_to_str_offset[end]
-                m = extractor.compiled_regex.match(text[start:end])
-                # hyperscan classifies bytes, Python characters: a hit that the
-                # Python pattern does not confirm (e.g. next to a no-break
-                # space) is not a match
-                if m:
-                    yield extractor.get_token(m, offset=start)
+                # Re-match inside the text, not on a slice of it: on a slice
+                # "^" and "$" would match at the slice edges, which are not
+                # text boundaries (' Cooke, 93' instead of 'Cooke, 93').
+                m = extractor.compiled_regex.match(text, start)
+                # hyperscan classifies bytes, Python characters, and it reports
+                # every possible match end: keep a hit only if it is the match
+                # the Python pattern finds at this position
+                if m and m.end() == end:
+                    yield extractor.get_token(m)
 
     @property
     def hyperscan_db(self):
